@@ -88,13 +88,17 @@ func writeEvidence(prop, tier string, seed int64, conf propConf, m *workerResult
 	if len(m.Outcomes) > 0 {
 		cov["vacuous_scenario_present"] = vac
 	}
+	assume := assumptions[prop]
+	if assume == nil {
+		assume = []string{}
+	}
 	ev := map[string]any{
 		"property_id": prop,
 		"tier":        tier,
 		"seed":        seed,
 		"level":       conf.Level,
 		"coverage":    cov,
-		"assumptions": assumptions[prop],
+		"assumptions": assume,
 		"wall_s":      wall,
 		"violations":  nviol,
 	}
